@@ -4,7 +4,8 @@
 From Utp Require Import Base.Prelude Wire.SeqNr Wire.Header Rtt.Rtte Rtt.Rtte_Proofs Mtu.SegSizes Rx.Rx Tx.Ring
   Tx.Segments Conn.Recovery Conn.Msg Conn.VSockRec Conn.VSock Conn.VSockRun Conn.VObs
   Conn.VSock_Lemmas Conn.VSock_LemmasTx Conn.VSock_LemmasStep Conn.VSock_LemmasTimers
-  Conn.C17_StepLemmas Conn.C05_Pred Conn.C06_Pred Conn.C0506_Pred2 Conn.C05_StepLemmas.
+  Conn.C17_StepLemmas Conn.C05_Pred Conn.C06_Pred Conn.C0506_Pred2 Conn.C05_Pred3 Conn.C05_StepLemmas
+  Conn.C10_Pred Conn.VSock_Inv Conn.C10_Proofs Conn.C05_Refuted.
 
 (* ------------------------------------------------------------------ lists *)
 Lemma filter_rev' {A} (p : A -> bool) : forall l, filter p (rev l) = rev (filter p l).
@@ -141,3 +142,49 @@ Proof.
 Qed.
 
 End WithCC.
+
+(* ================================================================== c05_rto_exit_ok is FALSE of the model
+   (boundary B6 in a form the predicate does not recognise).  Single-segment mode is left when the
+   expired MTU probe is popped; the predicate excuses that exit when max_ss was lowered by the poll, but
+   on_probe_failed lowers max_ss only down to min_ss, and the peer's own payloads may have raised min_ss
+   to max_ss while the probe was outstanding.
+   Scenario (constant window, link MTU 1500: min_ss 528, max_ss 1452): write 3000 bytes, poll (segment
+   101 of 528 bytes and the probe 102 of 991 bytes go out), ACK of 101, 3 s later the timer fires and the
+   probe is retransmitted (counter 1), the peer's ST_DATA of 1452 bytes arrives (min_ss := 1452 = max_ss),
+   3 s later the timer fires again: the probe is popped as expired, the counter is reset, max_ss stays
+   1452, nothing was acknowledged - and the same poll sends two new segments (102 with 1452 bytes, 103). *)
+Definition b6_ops : list vop :=
+  [VoWrite (repeat 0 (Z.to_nat 3000)); VoPoll []; VoDeliver (wmsg ST_STATE 1 101 0); VoPoll [];
+   VoSetNow 3000000000; VoPoll [];
+   VoDeliver (wmsg ST_DATA 1 101 1452);
+   VoSetNow 6000000000; VoPoll []].
+
+Lemma rto_exit_ok_b6_refuted :
+  exists w cfg ops,
+    vconfig_ok cfg = true /\ Forall op_msg_ok ops /\
+    forallb (c05_rto_exit_ok cfg) (wtrace w cfg ops) = false /\
+    (* the failing step is in the class B6, and outside that class the clause holds on this trace *)
+    existsb (c05_rto_exit_b6_class cfg) (wtrace w cfg ops) = true /\
+    forallb (fun st => c05_rto_exit_ok cfg st || c05_rto_exit_b6_class cfg st) (wtrace w cfg ops) = true /\
+    (* the restated clause holds, the other C05 step clauses hold *)
+    forallb (c05_rto_exit_ok2 cfg) (wtrace w cfg ops) = true /\
+    forallb (c05_rto_single_ok cfg) (wtrace w cfg ops) = true /\
+    (* what the last poll did: counter 1 -> 0, max_ss unchanged, two ST_DATA *)
+    match rev (wtrace w cfg ops) with
+    | st :: _ => f_rto_retx (fs_pre st) = 1 /\ f_rto_retx (fs_post st) = 0 /\
+                 f_max_ss (fs_post st) = f_max_ss (fs_pre st) /\
+                 f_snd_una (fs_post st) = f_snd_una (fs_pre st) /\
+                 match fs_result st with
+                 | FrPoll PollPending pkts _ _ => length (filter fq_is_data pkts) = 2%nat
+                 | _ => False
+                 end
+    | [] => False
+    end.
+Proof.
+  exists 100000, d16_cfg, b6_ops.
+  split; [vm_compute; reflexivity|]. split.
+  { repeat constructor; cbv [op_msg_ok msg_ok wmsg m_hdr ch_type m_payload]; vm_compute; discriminate. }
+  split; [vm_compute; reflexivity|]. split; [vm_compute; reflexivity|].
+  split; [vm_compute; reflexivity|]. split; [vm_compute; reflexivity|].
+  split; [vm_compute; reflexivity|]. vm_compute. repeat split.
+Qed.
